@@ -1603,6 +1603,17 @@ func (o *Origins) reaching(root ssa.Value, path []pathElem, at ssa.Instruction, 
 					}
 					continue
 				}
+				// a function literal that captures the variable is handed to a call not understood above: it may
+				// write the variable, what it holds afterwards is not known
+				for _, a := range cc.Args {
+					if mc, ok := a.(*ssa.MakeClosure); ok {
+						for _, bnd := range mc.Bindings {
+							if der[bnd] && closureStoresTo(mc, bnd) {
+								sources = append(sources, finish(mk("opaque", "written-by-closure-argument"), ovs))
+							}
+						}
+					}
+				}
 				for ai, a := range cc.Args {
 					if der[a] {
 						d := o.p.Describe(x)
@@ -1763,17 +1774,35 @@ func (o *Origins) rangeFuncAcc(x ssa.CallInstruction, root ssa.Value, path []pat
 	if len(path) != 0 || len(cc.Args) != 1 || cc.IsInvoke() {
 		return nil
 	}
-	seq, ok := cc.Value.(*ssa.Call)
-	if !ok || len(seq.Call.Args) != 1 {
-		return nil
-	}
+	// the iterator: a call of maps.Values / slices.Values / maps.Keys here, or a value (a parameter of a helper
+	// read in its calling context) whose provenance is such a call
+	var coll *Ex
 	kind := ""
-	switch o.p.Describe(seq).Name {
-	case "maps.Values", "slices.Values":
-		kind = "elem"
-	case "maps.Keys":
-		kind = "key"
-	default:
+	if seq, ok := cc.Value.(*ssa.Call); ok && len(seq.Call.Args) == 1 {
+		switch o.p.Describe(seq).Name {
+		case "maps.Values", "slices.Values":
+			kind = "elem"
+		case "maps.Keys":
+			kind = "key"
+		}
+		if kind != "" {
+			coll = o.Of(seq.Call.Args[0])
+		}
+	}
+	if kind == "" {
+		if _, isParam := cc.Value.(*ssa.Parameter); isParam {
+			if se := o.Of(cc.Value); se != nil && se.K == "call" && len(se.Args) == 1 {
+				switch se.S {
+				case "maps.Values", "slices.Values":
+					kind = "elem"
+				case "maps.Keys":
+					kind = "key"
+				}
+				coll = se.Args[0]
+			}
+		}
+	}
+	if kind == "" || coll == nil {
 		return nil
 	}
 	mc, ok := cc.Args[0].(*ssa.MakeClosure)
@@ -1849,7 +1878,7 @@ func (o *Origins) rangeFuncAcc(x ssa.CallInstruction, root ssa.Value, path []pat
 		return nil
 	}
 	co := o.EnterClosure(fn)
-	co.memo[fn.Params[0]] = mk(kind, "", o.Of(seq.Call.Args[0]))
+	co.memo[fn.Params[0]] = mk(kind, "", coll)
 	step := co.Of(stepV)
 	before := o.reaching(root, path, x, x.Block(), instrIndex(x))
 	if before.K == "zero" {
@@ -2298,4 +2327,41 @@ func (o *Origins) indexMapSearch(lk *ssa.Lookup) *Ex {
 	}
 	o.idxMapElem[lk] = elemMode
 	return e
+}
+
+// closureStoresTo reports whether the function literal (or one nested in it) stores through the captured binding.
+func closureStoresTo(mc *ssa.MakeClosure, bnd ssa.Value) bool {
+	fn, ok := mc.Fn.(*ssa.Function)
+	if !ok {
+		return true
+	}
+	for bi, b := range mc.Bindings {
+		if b != bnd || bi >= len(fn.FreeVars) {
+			continue
+		}
+		fv := fn.FreeVars[bi]
+		for _, blk := range fn.Blocks {
+			for _, in := range blk.Instrs {
+				switch y := in.(type) {
+				case *ssa.Store:
+					if r, _ := addrRoot(y.Addr); r == ssa.Value(fv) {
+						return true
+					}
+				case *ssa.MakeClosure:
+					for _, b2 := range y.Bindings {
+						if b2 == ssa.Value(fv) && closureStoresTo(y, b2) {
+							return true
+						}
+					}
+				case ssa.CallInstruction:
+					for _, a := range y.Common().Args {
+						if r, _ := addrRoot(a); r == ssa.Value(fv) {
+							return true
+						}
+					}
+				}
+			}
+		}
+	}
+	return false
 }
